@@ -381,23 +381,24 @@ theorem cleanupLoggers_frame (inj : BSt → Nat → BSt) (hq : Quiet9 inj) (s : 
 
 /-- the state in which the idle branch of a poll asks whether everything is empty -/
 def idleState (inj : BSt → Nat → BSt) (s : BSt) : BSt :=
-  checkFailures inj (flushSinks (inj (populate inj s).1 5))
+  checkFailures inj (flushGate inj (inj (populate inj s).1 5) (inj (populate inj s).1 5).cfg.flushInterval)
 
 theorem poll_idle_eq (inj : BSt → Nat → BSt) (s : BSt) (h0 : (populate inj s).2 = 0)
     (he : (allEmpty (idleState inj s)).2 = true) :
-    poll inj s = cleanupLoggers inj (cleanupContexts (allEmpty (idleState inj s)).1) := by
+    poll inj s = cleanupLoggers inj (preEraseFlush (cleanupContexts (allEmpty (idleState inj s)).1)) := by
   unfold poll
   rcases hpe : populate inj s with ⟨s1, count⟩
   rw [hpe] at h0
   simp only [] at h0
   subst h0
-  have : idleState inj s = checkFailures inj (flushSinks (inj s1 5)) := by unfold idleState; rw [hpe]
+  have : idleState inj s = checkFailures inj (flushGate inj (inj s1 5) (inj s1 5).cfg.flushInterval) := by
+    unfold idleState; rw [hpe]
   rw [this] at he
   simp only [ne_eq, not_true_eq_false, if_false, he, if_true, this]
 
 theorem CInv_idleState {inj : BSt → Nat → BSt} (hi : InjOK CInv inj) (s : BSt) (hs : CInv s) :
     CInv (idleState inj s) :=
-  checkFailures_ok CInv_closed.toClosedB hi _ (CInv_closed.flushSinks _ (hi _ 5 (populate_ok CInv_closed.toClosedB hi s hs)).1)
+  checkFailures_ok CInv_closed.toClosedB hi _ (flushGate_ok CInv_closed.toClosedB hi _ _ (hi _ 5 (populate_ok CInv_closed.toClosedB hi s hs)).1)
 
 theorem CInv_fresh (s : BSt) (h1 : s.ths = []) (h2 : s.registry = []) (h3 : s.cache = []) (h4 : s.newFlag = false)
     (h5 : s.invalidCnt = 0) (h6 : s.actors = []) : CInv s := by
